@@ -315,7 +315,7 @@ func init() {
 		Level: "model_checking",
 		Rule: "9 list kinds x two lists (3+2 elements of different shapes) x comment layouts (7 configurations per element: none, 1 or 2 leading lines, trailing, leading+trailing, inner, inner nested list with trailing + dangling comment) x separator {newline, blank line, inline}; " +
 			"layouts whose elements do not all carry the same (Before, After) are outside the quantifier (counted); explicit-state BFS from the identity arrangement over swap/delete/duplicate-with-Clone (after, at end)/move-to-other-list, " +
-			"depth 1 on all layouts and depth 2 on 36 per kind (quick), depth 3 (thorough); successor = fresh parse + replay; oracle: print == gofmt(text whose chunks were edited the same way); equal arrangements reached by different histories print equally; " +
+			"depth 1 on all layouts and depth 2 on 49 per kind (quick); depth 2 on all layouts and depth 3 on the 7 uniform ones per kind (thorough); successor = fresh parse + replay; oracle: print == gofmt(text whose chunks were edited the same way); equal arrangements reached by different histories print equally; " +
 			"state = (kind, layout, arrangement of element ids); non-trivial = arrangement differing from the identity with at least one comment",
 		Assumptions: []string{"a chunk = element + its directly preceding comment lines + its trailing same-line comment", "go/format normalises both sides"},
 		Units: func(tier string) []string {
@@ -375,7 +375,10 @@ func runC02(ctx *core.Ctx, unit int) {
 					depth = 2
 				}
 				if ctx.Thorough() {
-					depth = 3
+					depth = 2
+					if c1 == c0 && c2 == c0 {
+						depth = 3
+					}
 				}
 				outputs := map[string]string{}
 				b := &explore.BFS{MaxDepth: depth, NOps: len(c02Ops), Stop: ctx.Expired, Root: -1}
